@@ -51,7 +51,7 @@ def whyRequest (s : S) (op pid : Nat) (k : Kind) (dup : Option Bool) (body : Nat
       else if dup = some true then "C03 first transmission has DUP=1" else "model ?"
     | some sl =>
       if sl.op ≠ op then "C08 packet identifier is in use by another outstanding operation"
-      else if sl.body ≠ body then "C03 retransmission differs from the first transmission beyond the DUP bit"
+      else if s.bodyOf op ≠ some body then "C03 retransmission differs from the first transmission beyond the DUP bit"
       else if sl.okBefore && dup = some false then "C03 retransmission with DUP=0 although an earlier transmission was written successfully"
       else match sl.phase with
         | .relIdle | .relWriting | .relWaiting => "C03 PUBLISH transmitted again after the PUBREC was consumed"
